@@ -207,6 +207,8 @@ macro_rules! bloom {
 bloom!(o14_1_bloom_b10_l1_l4, 10, 1, 4);
 bloom!(o14_1_bloom_b1_l0_l3, 1, 0, 3);
 bloom!(o14_1_bloom_b64_l5_l1, 64, 5, 1);
+bloom!(o14_1_bloom_b64_l1_l0, 64, 1, 0);
+bloom!(o14_1_bloom_b45_l0_l1, 45, 0, 1);
 bloom!(o14_1_bloom_b9_l4_l4, 9, 4, 4);
 bloom!(o14_1_bloom_b43_l3_l5, 43, 3, 5);
 
